@@ -9,5 +9,8 @@ CONSTANTS N = 3
  SignedGater = FALSE
  InnerProofPolicy = "either"
  VCBatchPolicy = "either"
+ AggBatchFor = "none"
+ MemoVerifier = FALSE
+ ReplayPolicy = "either"
 INVARIANTS TypeOK OnlyValidEnter ValidEnters PeerAllOrNothing
 CHECK_DEADLOCK FALSE
